@@ -147,9 +147,31 @@ def bounded(tier, seed):
             viol.append({"clause": "doc_literals_unchanged", "input": {"text": d, "options": o, **P.doc_features(d)}, "got": on[:300]})
         if D.canonical(off.replace("...", "…"))[1:] is None:
             pass
+    # document level: with the option on, formatting again changes nothing (prose with dot runs next to soft breaks, many widths)
+    import random
+    rnd = random.Random(seed)
+    words = ["word", "and", "then", "wait...", "so...", "end...", "...and", "(really)", "(so.)", "hmm", "ok.", "Really?", "plain", "here", "a...b"]
+    for i in range(30 if tier == "quick" else 300):
+        toks = [rnd.choice(words) for _ in range(rnd.choice((6, 10, 16)))]
+        text = "".join(t if k == 0 else (("\n" if rnd.random() < 0.35 else " ") + t) for k, t in enumerate(toks)) + "\n"
+        for w in (8, 14, 22, 31, 47, 88):
+            for sm in (False, True):
+                o = dict(width=w, semantic=sm, ellipses=True)
+                out = P.fmt(text, **o)
+                evals += 1
+                again = P.fmt(out, **o)
+                if again != out:
+                    viol.append({"clause": "doc_rewrite_idempotent", "input": {"text": text, "options": o, **P.doc_features(text)},
+                                 "got": again[:600], "want": out[:600]})
     return {"evaluations": evals, "distinct_nontrivial": len(distinct), "violations": viol,
             "samples": [{"text": "a...b"}, {"text": docs[-4]}],
             "rule": "ellipses() on every string of length <= %d over the 13-symbol alphabet (incl. a pre-existing ellipsis character) that contains '...' or the ellipsis character: relation D "
                     "(alignment: only three-dot runs become the ellipsis character, only the spaces around them change), texts without a three-dot run unchanged, idempotence of the rewrite; documents of the document space + 4 targeted ones: option on vs off differ only by "
-                    "'...' -> '…' and spaces, literal spans identical; distinct = distinct rewritten strings" % maxlen,
+                    "'...' -> '…' and spaces, literal spans identical; seeded prose with dot runs next to soft breaks at 6 widths x both modes with the option on: a second formatting pass changes nothing; distinct = distinct rewritten strings" % maxlen,
             "exhaustive": True, "bound": "strings <= %d symbols" % maxlen}
+
+
+def witnesses():
+    o = dict(ellipses=True, width=8, semantic=False)
+    a = P.fmt("aaaa bbbb (so.) ...and more\n", **o)
+    return {"C09-leading-dots-at-line-start": P.fmt(a, **o) != a}
